@@ -140,39 +140,46 @@ impl congestion_controller::CongestionController for CountingCc {
     }
 }
 
-/// server endpoint configuration whose paths carry a `CountingCc`
-#[derive(Debug)]
-pub struct RecoveryServer;
+macro_rules! recovery_config {
+    ($name:ident, $ty:expr) => {
+        /// endpoint configuration whose paths carry a `CountingCc`
+        #[derive(Debug)]
+        pub struct $name;
 
-impl endpoint::Config for RecoveryServer {
-    type CongestionControllerEndpoint = CountingEndpoint;
-    type TLSEndpoint = s2n_quic_core::crypto::tls::testing::Endpoint;
-    type PathHandle = RemoteAddress;
-    type Connection = connection::Implementation<Self>;
-    type ConnectionLock = std::sync::Mutex<Self::Connection>;
-    type EndpointLimits = super::common::Limits;
-    type ConnectionIdFormat = connection::id::testing::Format;
-    type StatelessResetTokenGenerator = stateless_reset::token::testing::Generator;
-    type RandomGenerator = random::testing::Generator;
-    type TokenFormat = s2n_quic_core::token::testing::Format;
-    type ConnectionLimits = s2n_quic_core::connection::limits::Limits;
-    type Mtu = s2n_quic_core::path::mtu::Config;
-    type StreamManager = crate::stream::DefaultStreamManager;
-    type ConnectionCloseFormatter = s2n_quic_core::connection::close::Development;
-    type EventSubscriber = event::testing::Subscriber;
-    type PathMigrationValidator = migration::allow_all::Validator;
-    type PacketInterceptor = s2n_quic_core::packet::interceptor::Disabled;
-    type DatagramEndpoint = s2n_quic_core::datagram::Disabled;
-    type DcEndpoint = s2n_quic_core::dc::testing::MockDcEndpoint;
+        impl endpoint::Config for $name {
+            type CongestionControllerEndpoint = CountingEndpoint;
+            type TLSEndpoint = s2n_quic_core::crypto::tls::testing::Endpoint;
+            type PathHandle = RemoteAddress;
+            type Connection = connection::Implementation<Self>;
+            type ConnectionLock = std::sync::Mutex<Self::Connection>;
+            type EndpointLimits = super::common::Limits;
+            type ConnectionIdFormat = connection::id::testing::Format;
+            type StatelessResetTokenGenerator = stateless_reset::token::testing::Generator;
+            type RandomGenerator = random::testing::Generator;
+            type TokenFormat = s2n_quic_core::token::testing::Format;
+            type ConnectionLimits = s2n_quic_core::connection::limits::Limits;
+            type Mtu = s2n_quic_core::path::mtu::Config;
+            type StreamManager = crate::stream::DefaultStreamManager;
+            type ConnectionCloseFormatter = s2n_quic_core::connection::close::Development;
+            type EventSubscriber = event::testing::Subscriber;
+            type PathMigrationValidator = migration::allow_all::Validator;
+            type PacketInterceptor = s2n_quic_core::packet::interceptor::Disabled;
+            type DatagramEndpoint = s2n_quic_core::datagram::Disabled;
+            type DcEndpoint = s2n_quic_core::dc::testing::MockDcEndpoint;
 
-    fn context(&mut self) -> endpoint::Context<'_, Self> {
-        unimplemented!("the verification drivers never build a whole endpoint")
-    }
+            fn context(&mut self) -> endpoint::Context<'_, Self> {
+                unimplemented!("the verification drivers never build a whole endpoint")
+            }
 
-    const ENDPOINT_TYPE: s2n_quic_core::endpoint::Type = s2n_quic_core::endpoint::Type::Server;
+            const ENDPOINT_TYPE: s2n_quic_core::endpoint::Type = $ty;
+        }
+    };
 }
 
-type Cfg = RecoveryServer;
+recovery_config!(RecoveryServer, s2n_quic_core::endpoint::Type::Server);
+recovery_config!(RecoveryClient, s2n_quic_core::endpoint::Type::Client);
+
+
 
 /// ACK ranges exactly as handed over (descending, as the wire format delivers them)
 pub struct RawRanges(pub Vec<RangeInclusive<VarInt>>);
@@ -185,6 +192,25 @@ impl<'a> AckRanges for &'a RawRanges {
     }
 }
 
+fn addr(s: &str) -> RemoteAddress {
+    let a: SocketAddr = s.parse().unwrap();
+    RemoteAddress::from(SocketAddress::from(a))
+}
+
+fn ts(us: u64) -> Timestamp {
+    unsafe { Timestamp::from_duration(Duration::from_micros(us)) }
+}
+
+fn ts_us(t: Timestamp) -> i128 {
+    unsafe { t.as_duration().as_micros() as i128 }
+}
+
+macro_rules! recovery_driver {
+    ($modname:ident, $cfg:ident, $ty:expr, $client:expr) => {
+        pub mod $modname {
+            use super::*;
+            type Cfg = $cfg;
+
 struct Ctx<'a> {
     path_manager: &'a mut path::Manager<Cfg>,
     path_id: path::Id,
@@ -194,7 +220,7 @@ struct Ctx<'a> {
 }
 
 impl recovery::Context<Cfg> for Ctx<'_> {
-    const ENDPOINT_TYPE: endpoint::Type = endpoint::Type::Server;
+    const ENDPOINT_TYPE: endpoint::Type = $ty;
 
     fn is_handshake_confirmed(&self) -> bool {
         self.confirmed
@@ -267,26 +293,17 @@ impl recovery::Context<Cfg> for Ctx<'_> {
     fn on_mtu_update(&mut self, _max_datagram_size: u16) {}
 }
 
-fn addr(s: &str) -> RemoteAddress {
-    let a: SocketAddr = s.parse().unwrap();
-    RemoteAddress::from(SocketAddress::from(a))
-}
-
-fn ts(us: u64) -> Timestamp {
-    unsafe { Timestamp::from_duration(Duration::from_micros(us)) }
-}
-
-fn ts_us(t: Timestamp) -> i128 {
-    unsafe { t.as_duration().as_micros() as i128 }
-}
-
-/// input = [space; confirmed; max_ack_delay_ms; start_us] then ops of 8 integers
+/// input = [space; flags (bit 0: handshake confirmed, bit 1: client); max_ack_delay_ms; start_us] then ops of 8 integers
+/// The server has two validated paths in the ApplicationData space and one otherwise; the client has one
+/// path (validated, peer validation pending until op 8).
 ///   [1; gap; bytes; ack_eliciting; dt; path; _; _]   on_packet_sent(pn = last + max(gap,1), ..) at now += dt
 ///   [2; dt; ..]                                      on_transmit_burst_complete(now += dt)
 ///   [3|4; dt; largest; len1; gap2; len2; ack_delay_us; _]  on_ack_frame received on path 0|1:
 ///        ranges [largest-len1, largest] and, when len2 > 0, [e2-(len2-1), e2] with e2 = largest-len1-2-gap2
 ///   [5; dt; ..]                                      on_timeout(now += dt), max backoff = 2 * backoff
-///   [6; ..]                                          on_packet_number_space_discarded(path 0); ends the case
+///   [6; ..]                                          on_packet_number_space_discarded(path 0); ends the case (ignored in ApplicationData)
+///   [7; ..]                                          on_retry_packet(path 0) (client only, otherwise ignored)
+///   [8; ..]                                          the peer has validated our address (Path::on_peer_validated)
 /// output per op:
 ///   [code; n_lost; lost..; n_hulls; (start,end)..; sent0; acked0; lost0; disc0; sent1; acked1; lost1; disc1;
 ///    armed; expiration_us; pto_backoff; requires_probe; smoothed0; latest0; min0; first0; smoothed1; latest1; min1; first1]
@@ -298,18 +315,25 @@ pub fn run(input: &[i128]) -> Vec<i128> {
         1 => PacketNumberSpace::Handshake,
         _ => PacketNumberSpace::ApplicationData,
     };
-    let confirmed = at(1) != 0;
+    let confirmed = at(1) & 1 != 0;
+    let is_client: bool = $client;
+    let single = is_client || !matches!(space, PacketNumberSpace::ApplicationData);
     let mut publisher = Publisher::no_snapshot();
     let mut random_generator = random::testing::Generator(123);
 
     let first_addr = addr("127.0.0.1:80");
     let second_addr = addr("127.0.0.2:80");
-    let registry = ConnectionIdMapper::new(&mut random_generator, endpoint::Type::Server)
-        .create_server_peer_id_registry(
-            InternalConnectionIdGenerator::new().generate_id(),
-            connection::PeerId::TEST_ID,
-            true,
-        );
+    let registry = if is_client {
+        ConnectionIdMapper::new(&mut random_generator, endpoint::Type::Client)
+            .create_client_peer_id_registry(InternalConnectionIdGenerator::new().generate_id(), true)
+    } else {
+        ConnectionIdMapper::new(&mut random_generator, endpoint::Type::Server)
+            .create_server_peer_id_registry(
+                InternalConnectionIdGenerator::new().generate_id(),
+                connection::PeerId::TEST_ID,
+                true,
+            )
+    };
     let mut rtt_estimator = RttEstimator::default();
     rtt_estimator.on_max_ack_delay(
         VarInt::new(at(2) as u64)
@@ -317,6 +341,7 @@ pub fn run(input: &[i128]) -> Vec<i128> {
             .try_into()
             .expect("max_ack_delay"),
     );
+    let initial_rtt = rtt_estimator;
     let limits = s2n_quic_core::connection::limits::Limits::default();
     let first = path::Path::<Cfg>::new(
         first_addr,
@@ -324,14 +349,14 @@ pub fn run(input: &[i128]) -> Vec<i128> {
         connection::LocalId::TEST_ID,
         rtt_estimator,
         CountingCc::default(),
-        true,
+        !is_client,
         mtu::Config::default(),
         limits.anti_amplification_multiplier(),
         0,
     );
     let mut path_manager = path::Manager::<Cfg>::new(first, registry);
     let mut now_us = (at(3) as u64).max(1);
-    {
+    if !is_client {
         let datagram = DatagramInfo {
             timestamp: ts(now_us),
             payload_len: 0,
@@ -358,13 +383,15 @@ pub fn run(input: &[i128]) -> Vec<i128> {
         .unwrap()
         .1
         .on_handshake_packet();
-    path_manager
-        .path_mut(&second_addr)
-        .unwrap()
-        .1
-        .on_handshake_packet();
-    let ids = [unsafe { path::Id::new(0) }, unsafe { path::Id::new(1) }];
-    assert!(path_manager[ids[1]].is_peer_validated() && !path_manager[ids[1]].at_amplification_limit());
+    if !is_client {
+        path_manager
+            .path_mut(&second_addr)
+            .unwrap()
+            .1
+            .on_handshake_packet();
+    }
+    let ids = [unsafe { path::Id::new(0) }, unsafe { path::Id::new(if is_client { 0 } else { 1 }) }];
+    assert!(!path_manager[ids[1]].at_amplification_limit());
 
     let mut manager = Manager::<Cfg>::new(space);
     let mut last_pn: Option<u64> = None;
@@ -383,8 +410,10 @@ pub fn run(input: &[i128]) -> Vec<i128> {
         };
         let mut code: i128 = 0;
         let mut stop = false;
-        if matches!(o[0], 3..=6) {
-            now_us += if o[0] == 6 { 0 } else { o[1] as u64 };
+        let discard = o[0] == 6 && !matches!(space, PacketNumberSpace::ApplicationData);
+        let retry = o[0] == 7 && is_client;
+        if matches!(o[0], 3..=5) || discard || retry {
+            now_us += if matches!(o[0], 3..=5) { o[1] as u64 } else { 0 };
             // the connection always completes a transmission burst before it processes anything else
             if burst_open {
                 manager.on_transmit_burst_complete(
@@ -404,7 +433,7 @@ pub fn run(input: &[i128]) -> Vec<i128> {
                     Some(l) => l + (o[1] as u64).max(1),
                 };
                 last_pn = Some(pn);
-                ctx.path_id = ids[(o[5] != 0) as usize];
+                ctx.path_id = ids[(o[5] != 0 && !single) as usize];
                 let bytes = o[2] as usize;
                 burst_open |= o[3] != 0;
                 let outcome = transmission::Outcome {
@@ -443,7 +472,7 @@ pub fn run(input: &[i128]) -> Vec<i128> {
                 code = 3;
             }
             3 | 4 => {
-                ctx.path_id = ids[(o[0] == 4) as usize];
+                ctx.path_id = ids[(o[0] == 4 && !single) as usize];
                 let largest = o[2] as u64;
                 let s1 = largest.saturating_sub(o[3] as u64);
                 let mut ranges = vec![VarInt::new(s1).unwrap()..=VarInt::new(largest).expect("pn")];
@@ -480,13 +509,19 @@ pub fn run(input: &[i128]) -> Vec<i128> {
                     None => code = 2,
                 }
             }
-            6 => {
+            6 if discard => {
                 manager.on_packet_number_space_discarded(
                     &mut ctx.path_manager[ids[0]],
                     ids[0],
                     &mut publisher,
                 );
                 stop = true;
+            }
+            7 if retry => {
+                manager.on_retry_packet(&mut ctx.path_manager[ids[0]], ids[0], &mut publisher);
+            }
+            8 => {
+                ctx.path_manager[ids[0]].on_peer_validated();
             }
             _ => {}
         }
@@ -502,8 +537,13 @@ pub fn run(input: &[i128]) -> Vec<i128> {
             out.push(s as i128);
             out.push(e as i128);
         }
-        for id in ids {
-            let cc = path_manager[id].congestion_controller;
+        for (k, id) in ids.iter().enumerate() {
+            // the client has a single path: the second block stays at its initial values
+            let cc = if is_client && k == 1 {
+                CountingCc::default()
+            } else {
+                path_manager[*id].congestion_controller
+            };
             out.extend([cc.sent as i128, cc.acked as i128, cc.lost as i128, cc.discarded as i128]);
         }
         let e = manager.next_expiration();
@@ -511,8 +551,12 @@ pub fn run(input: &[i128]) -> Vec<i128> {
         out.push(e.map(ts_us).unwrap_or(0));
         out.push(path_manager.active_path().pto_backoff as i128);
         out.push(manager.requires_probe() as i128);
-        for id in ids {
-            let r = &path_manager[id].rtt_estimator;
+        for (k, id) in ids.iter().enumerate() {
+            let r = if is_client && k == 1 {
+                &initial_rtt
+            } else {
+                &path_manager[*id].rtt_estimator
+            };
             out.extend([
                 r.smoothed_rtt().as_nanos() as i128,
                 r.latest_rtt().as_nanos() as i128,
@@ -525,4 +569,19 @@ pub fn run(input: &[i128]) -> Vec<i128> {
         }
     }
     out
+}
+        }
+    };
+}
+
+recovery_driver!(server, RecoveryServer, endpoint::Type::Server, false);
+recovery_driver!(client, RecoveryClient, endpoint::Type::Client, true);
+
+/// see `server::run` for the encoding; bit 1 of the second header value selects the client side
+pub fn run(input: &[i128]) -> Vec<i128> {
+    if input.get(1).copied().unwrap_or(0) & 2 != 0 {
+        client::run(input)
+    } else {
+        server::run(input)
+    }
 }
